@@ -164,8 +164,11 @@ func (s *redisServer) execute(w *bufio.Writer, args [][]byte) error {
 	s.metrics.IncCommand(cmd)
 	switch cmd {
 	case "PING":
-		if len(args) > 1 && len(args[1]) > 0 {
-			return writeBulk(w, args[1])
+		if len(args) > 2 {
+			return s.respondError(w, "wrong number of arguments for 'PING'")
+		}
+		if len(args) == 2 {
+			return writeBulk(w, nonNil(args[1]))
 		}
 		return writeSimpleString(w, "PONG")
 	case "ECHO":
@@ -249,7 +252,7 @@ func (s *redisServer) execGet(w *bufio.Writer, key []byte) error {
 	if val == nil || !val.Found {
 		return writeNil(w)
 	}
-	return writeBulk(w, val.Value)
+	return writeBulk(w, nonNil(val.Value))
 }
 
 func (s *redisServer) execSet(w *bufio.Writer, args [][]byte) error {
@@ -348,6 +351,14 @@ func (s *redisServer) execSet(w *bufio.Writer, args [][]byte) error {
 	return writeNil(w)
 }
 
+// nonNil maps a nil slice to an empty one: an empty string is a value, not a nil reply.
+func nonNil(b []byte) []byte {
+	if b == nil {
+		return []byte{}
+	}
+	return b
+}
+
 func (s *redisServer) execDel(w *bufio.Writer, keys [][]byte) error {
 	removed, err := s.backend.Del(keys)
 	if err != nil {
@@ -367,7 +378,7 @@ func (s *redisServer) execMGet(w *bufio.Writer, keys [][]byte) error {
 			results[i] = nil
 			continue
 		}
-		results[i] = val.Value
+		results[i] = nonNil(val.Value)
 	}
 	return writeArray(w, results)
 }
